@@ -1711,6 +1711,9 @@ SendExtDesktopSize(rfbClient* client, uint16_t width, uint16_t height)
 
   if (client->screen.width != rfbClientSwap16IfLE(width) || client->screen.height != rfbClientSwap16IfLE(height)) {
     rfbClientLog("Sending dimensions %dx%d\n", width, height);
+    /* pad bytes, screen id, position and flags go out on the wire too */
+    memset(&sdm, 0, sizeof(sdm));
+    memset(&screen, 0, sizeof(screen));
     sdm.type = rfbSetDesktopSize;
     sdm.width = rfbClientSwap16IfLE(width);
     sdm.height = rfbClientSwap16IfLE(height);
